@@ -23,6 +23,8 @@ rule("C06.g", "CHP / plant set-up does not modify the asset's own ramp profiles,
 rule("C10.h", "a set-up does not carry results from one call to the next on the object: it neither probes instance state that only a "
               "previous set-up can have left (hasattr / getattr(self, ..) other than the documented timegrid) nor reads an attribute it "
               "writes itself before having written it in this call", floor=10)
+rule("C10.i", "a function that was given a grid hands it on to every callee that takes an optional grid (timegrid=None means 'whatever "
+              "the object was last set up with'): no callee silently falls back to state left by an earlier set-up", floor=2)
 rule("C01.k", "the nodal restrictions are rebuilt from the mapping of the problem at hand in every set-up of a portfolio (C10.h seen from "
               "C01: a cached set of rows describes another problem's structure)", floor=1)
 rule("C10.e", "price data received by a set-up is never modified in place (directly or through an alias / element)", floor=6)
@@ -404,7 +406,7 @@ def _mutable_default(d) -> bool:
     return False
 
 
-@analysis("effects", ["C10.a", "C10.e", "C10.f", "C15.c", "C03.f", "C06.g", "C10.h", "C01.k"])
+@analysis("effects", ["C10.a", "C10.e", "C10.f", "C15.c", "C03.f", "C06.g", "C10.h", "C01.k", "C10.i"])
 def run(ctx):
     p = ctx.p
     an = ctx.memo("effects", lambda: EffectAnalysis(ctx))
@@ -572,6 +574,39 @@ def run(ctx):
                        "of equal size but different structure: the solver balances the old nodal rows while the report reads the new "
                        "mapping (imbalance 3 at node N1 in the third interval)" % "; ".join("%s (%s)" % (why, p.where(n)) for n, why in bad[:3]),
                        node=(bad[0][0] if bad else m.node))
+
+    # ------------------------------------------------------------ C10.i: a received grid is handed on
+    for fn in sorted(p.all_functions(), key=lambda f: f.qualname):
+        if fn.parent is not None:
+            continue
+        gp = fn.param("timegrid")
+        if gp is None:
+            continue
+        for c in p.calls_in(fn):
+            targets = [t for t in p.resolve_call(c, fn) if t.param("timegrid") is not None and t.param("timegrid").has_default and au.is_none(t.param("timegrid").default)]
+            if not targets or any(t is fn for t in targets):
+                continue
+            # calls on the object itself run after it has taken the grid (set_timegrid); the rule is about *other* objects
+            if not isinstance(c.func, ast.Attribute) or au.base_name(c.func) in ("self", None) or \
+                    (isinstance(c.func.value, ast.Call) and isinstance(c.func.value.func, ast.Name) and c.func.value.func.id == "super"):
+                continue
+            passed = au.kwarg(c, "timegrid") is not None
+            if not passed:
+                t0 = targets[0]
+                names = [q.name for q in t0.params]
+                off = 1 if (t0.cls is not None and names and names[0] in ("self", "cls")) else 0
+                pos = names.index("timegrid") - off
+                passed = len(c.args) > pos and not any(isinstance(a, ast.Starred) for a in c.args)
+            if not passed:
+                # ... or the receiver was given the grid explicitly before: <recv>.set_timegrid(timegrid)
+                recv = au.U(c.func.value)
+                passed = any(isinstance(x, ast.Call) and au.method_name(x) == "set_timegrid" and isinstance(x.func, ast.Attribute) and au.U(x.func.value) == recv
+                             and x.args and au.U(x.args[0]) == "timegrid" and x.lineno < c.lineno for x in au.walk_local(fn.node))
+            ctx.ob("C10.i", fn, au.short(c, 80), passed,
+                   "%s was given a grid but calls %s without it: the callee then works on the grid its object was last set up with - another "
+                   "study, a rolling window, an interval of a split optimisation. With a grid of equal length the result is silently wrong (cost "
+                   "samples of an SLP built on the other grid's step lengths and discount factors), otherwise it raises" % (fn.qualname, targets[0].qualname),
+                   node=c)
 
     # ------------------------------------------------------------ C03.f: optimize works on copies
     opt = p.cls("OptimProblem").methods.get("optimize")
